@@ -45,6 +45,11 @@ CLAIMED["C16"] = ("fault_enumeration",
  "Enumeration, not sampling, of the single-fault space per seed input for truncations, field boundary values and line/token edits (bit flips and multi-byte edits are sampled); the seed inputs are a seeded sample plus the vendored corpus plus hand-built adversarial structures. Every damaged input is given to the real duke::read_class (+ write_class on whatever it accepted), read_class_multi with the unit visitor, tiny_v2::read<2|3>, tiny_v2_diff::read and read_file, enigma_file::read_into, Nests::read, and the three descriptor parsers (+ write on what they accepted). Panics are caught in the child; allocation is accounted by the harness allocator (limit 64 MiB + 1024 x input length live bytes); the byte source has step fuel; stack overflow, allocation-failure abort and CPU loops kill the child and are classified by the parent, which restarts behind the fatal case. One witness (the smallest input) per violation identity is written as a replay file and re-run in a fresh sandboxed child by --replay.",
  "trusted: refclass encoder offset map (only to locate fields; a wrong map would aim mutations badly, never raise a false alarm), refmap/refdiff writers for seed texts, the sandbox (sh ulimit backstops, harness allocator, fixed 8 MiB worker stack, 45 s no-progress watchdog); 'returns' is judged at these limits, stated in evidence",
  "DESIGN.md section 4 C16")
+CLAIMED["C17"] = ("exploration",
+ "deterministic simulation: one simulated Read+Seek stream holding 1-6 concatenated class files, read by successive read_class_multi calls with masked visitors (drawn interest masks per level, drawn declined classes / members / Code attributes), under drawn chunking / EINTR schedules and faults (EOF, EIO, failing seek, flipped byte); stream-position accounting after every call; received tree compared with the full read filtered by the mask; ClassFile::accept replay compared likewise",
+ "Seeded search over (stream of 1-6 generated or corpus classes, visitor kind, interest mask at class/field/method/code/record level, declined items, reader schedule, 0-1 fault, accept on/off). After every successful call the position must equal the end of that class (a wrong skip corrupts the next class). What the masked tree builder received, projected into the reference model, must equal duke's own full read of the class with uninteresting kinds and declined members removed (an uninteresting kind that is delivered anyway must be the true value). accept() of the fully read tree into the same visitor must give the same. T1: schedules change nothing. T2: Err, or Ok equal to the expectation; a flipped byte is judged against the full read of the delivered bytes. Sampling, not proof.",
+ "trusted: proj.rs (projection duke tree -> refclass::Sem), the mask filter in c17.rs, duke::verif::masked wrappers (pure forwarding, part of the hook), SimReader; the full read's own fidelity is C01's subject",
+ "DESIGN.md section 4 C17")
 PENDING = {}  # id -> reason (claimed in DESIGN.md but the check is not built yet)
 
 def main():
